@@ -278,13 +278,18 @@ class WireGen:
             if n not in known and not (19000 <= n <= 19999):
                 break
         wt = rng.choice([0, 1, 2, 5])
+        # well-formed but not necessarily minimal: an unknown record must come back byte-for-byte
+        tag_pad = rng.choice([0, 0, 0, 1]) if spec.varint_len((n << 3) | wt) < 5 else 0
         if wt == 0:
-            return spec.enc_record(n, 0, rng.choice([0, 1, 300, 2**64 - 1, rng.getrandbits(40)]))
+            v = rng.choice([0, 1, 300, 2**64 - 1, rng.getrandbits(40)])
+            pad = rng.choice([0, 0, 1, 3]) if spec.varint_len(v) <= 6 else 0
+            return spec.enc_record(n, 0, v, tag_pad=tag_pad, val_pad=pad)
         if wt == 1:
-            return spec.enc_record(n, 1, bytes(rng.getrandbits(8) for _ in range(8)))
+            return spec.enc_record(n, 1, bytes(rng.getrandbits(8) for _ in range(8)), tag_pad=tag_pad)
         if wt == 5:
-            return spec.enc_record(n, 5, bytes(rng.getrandbits(8) for _ in range(4)))
-        return spec.enc_record(n, 2, bytes(rng.getrandbits(8) for _ in range(rng.choice([0, 1, 3, 20]))))
+            return spec.enc_record(n, 5, bytes(rng.getrandbits(8) for _ in range(4)), tag_pad=tag_pad)
+        return spec.enc_record(n, 2, bytes(rng.getrandbits(8) for _ in range(rng.choice([0, 1, 3, 20]))),
+                               tag_pad=tag_pad, len_pad=rng.choice([0, 0, 0, 1, 2]))
 
     def _op_unknown_interleave(self, mi, fields, recs):
         raws = [x.raw for x in recs]
